@@ -193,6 +193,21 @@ impl Decoder for IRCLinesCodec {
     }
 }
 
+// schedule point of the verification harness: the installed hook tells how many times
+// the calling task yields here (no hook - no yield).
+#[cfg(sirc_verif)]
+pub(crate) static VERIF_POINT_HOOK: std::sync::OnceLock<fn(&'static str) -> u32> =
+    std::sync::OnceLock::new();
+
+#[cfg(sirc_verif)]
+pub(crate) async fn verif_point(site: &'static str) {
+    if let Some(hook) = VERIF_POINT_HOOK.get() {
+        for _ in 0..hook(site) {
+            tokio::task::yield_now().await;
+        }
+    }
+}
+
 pub(crate) fn validate_source(s: &str) -> bool {
     if s.contains(':') {
         // if have ':' then is not source
